@@ -698,46 +698,36 @@ Proof.
   - intros i Hi Hc. rewrite R in Hi. pose proof (c19_wt_reach_lt h d Hwt i Hi). apply F in Hc. lia.
 Qed.
 
-(* C19_copy for the repaired copy(): whatever is done to either grid, in any interleaving,
+(* C19_copy: whatever is done to either grid, in any interleaving,
    every single mutation leaves the other grid's report unchanged; and one-sided histories
    of any length leave the other side exactly as it was at copy time *)
-Lemma c19_copy_fixed_independent : forall h d h' d' ops,
-  c19_wt h d = true -> c19_copy_fixed h d = (h', d') ->
+Lemma c19_copy_independent : forall h d h' d' ops,
+  c19_wt h d = true -> c19_copy h d = (h', d') ->
   c19_obs h' d' = c19_obs h d /\
   c19_obs (c19_run h' d ops) d' = c19_obs h d /\
   c19_obs (c19_run h' d' ops) d = c19_obs h d.
 Proof.
-  intros h d h' d' ops Hwt E. unfold c19_copy_fixed in E.
+  intros h d h' d' ops Hwt E. unfold c19_copy in E.
   destruct (c19_deepcopy_sep h d h' d' Hwt E) as ((W1 & W2 & Dj) & O1 & O2).
   repeat split; auto.
   - rewrite c19_frame_thm; auto.
   - rewrite c19_frame_thm; auto. apply c19_disjoint_sym; auto.
 Qed.
 
-Lemma c19_copy_fixed_interleaved : forall h d h' d' ops o,
-  c19_wt h d = true -> c19_copy_fixed h d = (h', d') ->
+Lemma c19_copy_interleaved : forall h d h' d' ops o,
+  c19_wt h d = true -> c19_copy h d = (h', d') ->
   let hh := c19_run2 h' d d' ops in
   c19_obs (c19_apply hh d o) d' = c19_obs hh d' /\ c19_obs (c19_apply hh d' o) d = c19_obs hh d.
 Proof.
-  intros h d h' d' ops o Hwt E. unfold c19_copy_fixed in E.
+  intros h d h' d' ops o Hwt E. unfold c19_copy in E.
   destruct (c19_deepcopy_sep h d h' d' Hwt E) as (S & _). apply c19_interleave_thm; auto.
 Qed.
 
-(* the copy() that exists: the copy IS the original's dataset, so a setter on one shows on the other *)
 Definition c19_ex_heap : c19_heap :=
   [C19Buf [10%Z; 20%Z]; C19Dict [(0%Z, 0%Z)]; C19Var 0 1; C19Dict []; C19Ds [(c19_NODE_LON, 2)] 3].
 
-Lemma c19_copy_faithful_refuted : exists h d ops,
-  c19_wt h d = true /\
-  let '(h', d') := c19_copy_faithful h d in
-  c19_obs (c19_run h' d ops) d' <> c19_obs h' d'.
-Proof.
-  exists c19_ex_heap, 4, [C19SetVar c19_NODE_LAT [1%Z; 2%Z] []]. split; [reflexivity|].
-  vm_compute. discriminate.
-Qed.
-
 (* ------------------------------------------------------------------------- *)
-(* _process_connectivity: when exactly does it write into the caller's array    *)
+(* _process_connectivity: never writes into the caller's array; what the copy protects from *)
 
 Local Open Scope Z_scope.
 
@@ -750,9 +740,9 @@ Definition c19_pc_result (x : list Z) (fv : option Z) (si : Z) : list Z :=
   | Some o => if o =? FILL then c19_sub_start x si else c19_std_conn x o si
   end.
 
-Lemma c19_pc_spec h conn x dtype_std fv si h' r :
+Lemma c19_pc_nocopy_spec h conn x dtype_std fv si h' r :
   c19_get h conn = Some (C19Buf x) ->
-  c19_process_connectivity h conn dtype_std fv si = (h', r) ->
+  c19_process_connectivity_nocopy h conn dtype_std fv si = (h', r) ->
   c19_buf_data h' r = c19_pc_result x fv si /\
   (forall i, i <> conn -> (i < length h)%nat -> c19_get h' i = c19_get h i) /\
   (c19_pc_inplace dtype_std fv = true ->
@@ -761,7 +751,7 @@ Lemma c19_pc_spec h conn x dtype_std fv si h' r :
      r = length h /\ c19_ext h h').
 Proof.
   intros Hg. pose proof (c19_get_lt _ _ _ Hg) as Hlt.
-  unfold c19_process_connectivity, c19_pc_inplace, c19_pc_result, c19_buf_data. rewrite Hg.
+  unfold c19_process_connectivity_nocopy, c19_pc_inplace, c19_pc_result, c19_buf_data. rewrite Hg.
   destruct fv as [o|].
   - destruct (o =? FILL) eqn:Eo; [|destruct dtype_std]; cbn [orb].
     + intros [= <- <-]. rewrite c19_get_upd_same by assumption. repeat split; auto; try discriminate.
@@ -810,15 +800,15 @@ Proof.
       destruct (Z.eqb_spec v FILL); auto. destruct Hs; [contradiction|lia].
 Qed.
 
-(* C19_inputs for from_topology's connectivity argument, exact: the caller's array is modified
-   iff the in-place branch is taken and the standardisation changes a value *)
-Lemma c19_pc_input_modified h conn x dtype_std fv si h' r :
+(* without the protective copy the caller's array would be modified exactly when the in-place
+   branch is taken and the standardisation changes a value *)
+Lemma c19_pc_nocopy_input_modified h conn x dtype_std fv si h' r :
   c19_get h conn = Some (C19Buf x) ->
-  c19_process_connectivity h conn dtype_std fv si = (h', r) ->
+  c19_process_connectivity_nocopy h conn dtype_std fv si = (h', r) ->
   (c19_get h' conn <> c19_get h conn <->
    c19_pc_inplace dtype_std fv = true /\ c19_pc_result x fv si <> x).
 Proof.
-  intros Hg E. destruct (c19_pc_spec _ _ _ _ _ _ _ _ Hg E) as (D & O & I & N).
+  intros Hg E. destruct (c19_pc_nocopy_spec _ _ _ _ _ _ _ _ Hg E) as (D & O & I & N).
   pose proof (c19_get_lt _ _ _ Hg) as Hlt.
   destruct (c19_pc_inplace dtype_std fv) eqn:P.
   - destruct (I eq_refl) as (-> & G & L). rewrite G, Hg. split.
@@ -829,28 +819,35 @@ Proof.
     + intros [H _]; discriminate.
 Qed.
 
-(* repaired: never writes into an existing cell, result is a new array with the same values *)
-Lemma c19_pc_fixed_spec h conn x dtype_std fv si h' r :
+(* C19_inputs for the connectivity arguments of from_topology: never writes into an existing
+   cell, the result is a new array holding the standardised values *)
+Lemma c19_pc_spec h conn x dtype_std fv si h' r :
   c19_get h conn = Some (C19Buf x) ->
-  c19_process_connectivity_fixed h conn dtype_std fv si = (h', r) ->
+  c19_process_connectivity h conn dtype_std fv si = (h', r) ->
   c19_ext h h' /\ r = length h /\ c19_buf_data h' r = c19_pc_result x fv si.
 Proof.
-  intros Hg. unfold c19_process_connectivity_fixed, c19_pc_result, c19_buf_data. rewrite Hg.
+  intros Hg. unfold c19_process_connectivity, c19_pc_result, c19_buf_data. rewrite Hg.
   destruct fv as [o|]; [destruct (o =? FILL)|]; unfold c19_alloc; intros [= <- <-];
     rewrite c19_get_app_new; repeat split; auto;
     try (rewrite app_length; simpl; lia); intros; apply c19_get_app_old; auto.
 Qed.
 
-(* witness on the code that exists: int64 table with fill -1 and start_index 1 *)
-Lemma c19_pc_refuted : exists h conn dtype_std fv si,
-  let '(h', r) := c19_process_connectivity h conn dtype_std fv si in
+(* witness for the variant without the copy: int64 table with fill -1 and start_index 1 *)
+Lemma c19_pc_nocopy_refuted : exists h conn dtype_std fv si,
+  let '(h', r) := c19_process_connectivity_nocopy h conn dtype_std fv si in
   c19_get h' conn <> c19_get h conn.
 Proof.
   exists [C19Buf [1; 2; 3; -1]], 0%nat, true, (Some (-1)), 1. vm_compute. discriminate.
 Qed.
 
+Lemma c19_pc_ext h conn dtype_std fv si :
+  c19_ext h (fst (c19_process_connectivity h conn dtype_std fv si)).
+Proof.
+  unfold c19_process_connectivity. destruct fv as [o|]; [destruct (o =? FILL)|]; apply c19_ext_alloc.
+Qed.
+
 (* ------------------------------------------------------------------------- *)
-(* constructors that only allocate, or write into cells they allocated         *)
+(* constructors only allocate, or write into cells they allocated              *)
 
 Local Open Scope nat_scope.
 
@@ -961,34 +958,6 @@ Proof.
   - rewrite c19_get_upd_other by (intros ->; congruence). rewrite c19_get_app_old by assumption. exact Hd.
 Qed.
 
-Lemma c19_grid_init_flags_pres : forall over n0 h d vars a,
-  c19_get h d = Some (C19Ds vars a) -> (forall m v, In (m, v) vars -> n0 <= v) ->
-  c19_pres n0 h (fst (c19_grid_init_flags h d over)).
-Proof.
-  unfold c19_grid_init_flags. cbn [fst].
-  induction over as [|n over IH]; intros n0 h d vars a Hd Hv; cbn [fold_left].
-  - apply c19_pres_refl.
-  - destruct (c19_setdata_pres n0 h d vars a n [n] Hd Hv) as [P G].
-    eapply c19_pres_trans; [exact P|]. eapply IH; eauto.
-Qed.
-
-(* C19_inputs for the table-driven readers (MPAS, Exodus, SCRIP, ESMF, GEOS-CS, ICON): whatever
-   the table and the input dataset, no existing cell is written *)
-Lemma c19_read_table_inputs h d t cg over h' g :
-  c19_read_table h d t cg over = (h', g) -> c19_ext h h' /\ length h <= g.
-Proof.
-  unfold c19_read_table.
-  destruct (c19_new_ds h (c19_table_sources h d t) (if cg then c19_ds_gattrs h d else [])) as [h1 d1] eqn:E.
-  destruct (c19_new_ds_spec _ _ _ _ _ E) as (X & Ld & vars & a & Gd & La & M & R).
-  intros Hr. assert (Hg : g = d1) by (unfold c19_grid_init_flags in Hr; congruence).
-  assert (Hh : h' = fst (c19_grid_init_flags h1 d1 over)) by (rewrite Hr; reflexivity).
-  subst. split; auto.
-  apply c19_pres_is_ext. eapply c19_pres_trans.
-  - apply c19_pres_ext; [exact X|lia].
-  - eapply c19_grid_init_flags_pres; eauto.
-Qed.
-
-(* the grid variable wraps the input's buffer exactly when the table says so *)
 Lemma c19_fix_lon_pres n0 h d vars a name :
   c19_get h d = Some (C19Ds vars a) -> (forall m v, In (m, v) vars -> n0 <= v) ->
   c19_pres n0 h (c19_fix_lon h d name) /\ c19_get (c19_fix_lon h d name) d = Some (C19Ds vars a).
@@ -1000,57 +969,10 @@ Proof.
   apply c19_setdata_pres; auto.
 Qed.
 
-Lemma c19_grid_init_pres n0 h d vars a :
-  c19_get h d = Some (C19Ds vars a) -> (forall m v, In (m, v) vars -> n0 <= v) ->
-  c19_pres n0 h (fst (c19_grid_init h d)).
-Proof.
-  intros Hd Hv. unfold c19_grid_init. cbn [fst].
-  destruct (c19_fix_lon_pres n0 h d vars a c19_NODE_LON Hd Hv) as [P1 G1].
-  destruct (c19_fix_lon_pres n0 _ d vars a c19_EDGE_LON G1 Hv) as [P2 G2].
-  destruct (c19_fix_lon_pres n0 _ d vars a c19_FACE_LON G2 Hv) as [P3 G3].
-  eapply c19_pres_trans; [exact P1|]. eapply c19_pres_trans; [exact P2|exact P3].
-Qed.
 
-(* repaired from_topology: all connectivity arguments processed on copies *)
-Lemma c19_process_all_fixed_ext : forall l h dtype_std fv si h' cv,
-  c19_process_all true h l dtype_std fv si = (h', cv) -> c19_ext h h'.
-Proof.
-  induction l as [|[n b] l IH]; intros h dtype_std fv si h' cv; cbn [c19_process_all].
-  - intros [= <- <-]. apply c19_ext_refl.
-  - destruct (c19_process_connectivity_fixed h b dtype_std fv si) as [h1 r] eqn:E1.
-    destruct (c19_process_all true h1 l dtype_std fv si) as [h2 t'] eqn:E2. intros [= <- <-].
-    eapply c19_ext_trans; [|eapply IH; eauto].
-    unfold c19_process_connectivity_fixed in E1.
-    destruct fv as [o|]; [destruct (o =? FILL)%Z|]; unfold c19_alloc in E1; injection E1 as <- <-;
-      (split; [rewrite app_length; simpl; lia| intros; apply c19_get_app_old; auto]).
-Qed.
-
-Lemma c19_from_topology_fixed_inputs h coords conns dtype_std fv si h' g :
-  c19_from_topology_fixed h coords true conns dtype_std fv si = Some (h', g) ->
-  c19_ext h h' /\ length h <= g.
-Proof.
-  unfold c19_from_topology_fixed, c19_from_topology_gen. cbn [negb].
-  destruct (c19_process_all true h conns dtype_std fv si) as [h1 cv] eqn:E1.
-  match goal with |- context [c19_new_ds h1 ?l ?g0] => destruct (c19_new_ds h1 l g0) as [h2 d] eqn:E2 end.
-  intros [= <- <-].
-  pose proof (c19_process_all_fixed_ext _ _ _ _ _ _ _ E1) as X1.
-  destruct (c19_new_ds_spec _ _ _ _ _ E2) as (X2 & Ld & vars & a & Gd & La & M & R).
-  destruct X1 as [l1 g1]. split; [|lia].
-  apply c19_pres_is_ext. eapply c19_pres_trans.
-  - apply c19_pres_ext; [eapply c19_ext_trans; [split; eauto|exact X2]|lia].
-  - apply (c19_grid_init_pres (length h) h2 d vars a Gd). intros m v Hin. apply R in Hin. lia.
-Qed.
-
-(* list arguments for the connectivity raise before anything is built *)
-Lemma c19_from_topology_list_conn fixed h coords conns dtype_std fv si :
-  c19_from_topology_gen fixed h coords false conns dtype_std fv si = None.
-Proof. reflexivity. Qed.
-
-(* ------------------------------------------------------------------------- *)
 (* roots whose Dataset / Variable / attrs cells are all fresh (>= n0): buffers may be shared  *)
-
 Definition c19_freshshell (n0 : nat) (h : c19_heap) (d : nat) (vars : list (Z * nat)) (a : nat) : Prop :=
-  c19_get h d = Some (C19Ds vars a) /\ n0 <= a /\
+  c19_get h d = Some (C19Ds vars a) /\ n0 <= d /\ n0 <= a /\
   forall m v, In (m, v) vars -> n0 <= v /\ forall b va, c19_get h v = Some (C19Var b va) -> n0 <= va.
 
 Lemma c19_freshshell_setdata n0 h d vars a n x :
@@ -1058,11 +980,10 @@ Lemma c19_freshshell_setdata n0 h d vars a n x :
   let h' := c19_apply h d (C19SetData n x) in
   c19_pres n0 h h' /\ c19_freshshell n0 h' d vars a.
 Proof.
-  intros (Hd & Ha & Hv) Hn.
+  intros (Hd & Hdd & Ha & Hv) Hn.
   destruct (c19_setdata_pres n0 h d vars a n x Hd (fun m v Hin => proj1 (Hv m v Hin))) as [P G].
-  split; auto. split; auto. split; auto.
+  split; auto. split; auto. split; auto. split; auto.
   intros m v Hin. split; [apply (Hv m v Hin)|]. intros b va Hg.
-  (* the cell v is either untouched or re-pointed to a new buffer with the same attrs *)
   revert Hg. unfold c19_apply. rewrite Hd.
   destruct (c19_find n vars) as [v1|] eqn:Hf; [|apply (Hv m v Hin)].
   destruct (c19_get h v1) as [[| |b1 va1|]|] eqn:Hg1; try apply (Hv m v Hin).
@@ -1083,18 +1004,18 @@ Lemma c19_freshshell_setattr n0 h d vars a n k x :
   let h' := c19_apply h d (C19SetAttr n k x) in
   c19_pres n0 h h' /\ c19_freshshell n0 h' d vars a.
 Proof.
-  intros (Hd & Ha & Hv).
+  intros (Hd & Hdd & Ha & Hv).
   assert (Leaf : forall j kv kv', c19_get h j = Some (C19Dict kv) -> n0 <= j ->
             c19_pres n0 h (c19_upd h j (C19Dict kv')) /\ c19_freshshell n0 (c19_upd h j (C19Dict kv')) d vars a).
   { intros j kv kv' Hj Hnj. split; [apply c19_pres_upd; auto|].
     assert (Hjd : j <> d) by (intros ->; congruence).
-    split; [rewrite c19_get_upd_other; auto|]. split; auto.
+    split; [rewrite c19_get_upd_other; auto|]. split; auto. split; auto.
     intros m v Hin. split; [apply (Hv m v Hin)|]. intros b va Hg.
     destruct (Nat.eq_dec v j) as [->|Hne].
     - rewrite c19_get_upd_same in Hg by (eapply c19_get_lt; eauto). discriminate.
     - rewrite c19_get_upd_other in Hg by assumption. eapply (proj2 (Hv m v Hin)); eauto. }
   assert (Triv : c19_pres n0 h h /\ c19_freshshell n0 h d vars a)
-    by (exact (conj (c19_pres_refl n0 h) (conj Hd (conj Ha Hv)))).
+    by (exact (conj (c19_pres_refl n0 h) (conj Hd (conj Hdd (conj Ha Hv))))).
   unfold c19_apply. rewrite Hd. destruct (n =? -1)%Z.
   - destruct (c19_get h a) as [[|kv| |]|] eqn:Hga; auto. eapply Leaf; eauto.
   - destruct (c19_find n vars) as [v|] eqn:Hf; auto. apply c19_find_In in Hf.
@@ -1103,24 +1024,83 @@ Proof.
     eapply Leaf; eauto. eapply (proj2 (Hv _ _ Hf)); eauto.
 Qed.
 
-Lemma c19_standardize_fixed_pres n0 h d vars a name dtype_std :
+Lemma c19_freshshell_setvar n0 h d vars a n data at' :
   c19_freshshell n0 h d vars a -> n0 <= length h ->
-  let h' := c19_standardize true h d name dtype_std in
-  c19_pres n0 h h' /\ c19_freshshell n0 h' d vars a /\ n0 <= length h'.
+  let h' := c19_apply h d (C19SetVar n data at') in
+  c19_pres n0 h h' /\ exists vars', c19_freshshell n0 h' d vars' a.
 Proof.
-  intros FS Hn. pose proof FS as (Hd & Ha & Hv).
-  assert (Triv : c19_pres n0 h h /\ c19_freshshell n0 h d vars a /\ n0 <= length h)
-    by (split; [apply c19_pres_refl|split; auto]).
-  unfold c19_standardize. rewrite Hd.
-  destruct (c19_find name vars) as [v|]; auto.
-  destruct (c19_get h v) as [[| |b va|]|]; auto.
-  match goal with |- context [if ?c then h else _] => destruct c end; auto.
-  rewrite andb_false_r.
-  match goal with |- context [c19_apply h d (C19SetData name ?x2)] =>
-    destruct (c19_freshshell_setdata n0 h d vars a name x2 FS Hn) as [P1 FS1];
-    set (h1 := c19_apply h d (C19SetData name x2)) in * end.
-  destruct (c19_freshshell_setattr n0 h1 d vars a name c19_K_FILLVALUE FILL FS1) as [P2 FS2].
-  split; [eapply c19_pres_trans; eauto|]. split; auto. destruct P1, P2. lia.
+  intros (Hd & Hdd & Ha & Hv) Hn. pose proof (c19_get_lt _ _ _ Hd) as Hdl.
+  unfold c19_apply. rewrite Hd. unfold c19_alloc. cbn [fst snd].
+  set (h1 := h ++ [C19Buf data]). set (h2 := h1 ++ [C19Dict at']).
+  assert (L1 : length h1 = S (length h)) by (unfold h1; rewrite app_length; simpl; lia).
+  assert (L2 : length h2 = S (S (length h))) by (unfold h2; rewrite app_length; simpl; lia).
+  set (h3 := h2 ++ [C19Var (length h) (length h1)]).
+  assert (L3 : length h3 = S (S (S (length h)))) by (unfold h3; rewrite app_length; simpl; lia).
+  assert (Old : forall i, i < length h -> c19_get h3 i = c19_get h i).
+  { intros i Hi. unfold h3. rewrite c19_get_app_old by lia. unfold h2. rewrite c19_get_app_old by lia.
+    unfold h1. apply c19_get_app_old; auto. }
+  assert (Gv : c19_get h3 (length h2) = Some (C19Var (length h) (length h1))) by apply c19_get_app_new.
+  split.
+  - split; [rewrite c19_upd_length; lia|]. intros i Hi.
+    rewrite c19_get_upd_other by lia.
+    destruct (Nat.lt_ge_cases i (length h)); [apply Old; auto|lia].
+  - exists (c19_set n (length h2) vars). split; [apply c19_get_upd_same; lia|]. split; auto. split; auto.
+    intros m v Hin. apply c19_set_In in Hin. destruct Hin as [[= -> ->]|Hin].
+    + split; [lia|]. intros b va. rewrite c19_get_upd_other by lia. rewrite Gv. intros [= <- <-]. lia.
+    + split; [apply (Hv m v Hin)|]. intros b va Hg.
+      destruct (Nat.eq_dec v d) as [->|Hne].
+      * rewrite c19_get_upd_same in Hg by lia. discriminate.
+      * rewrite c19_get_upd_other in Hg by assumption.
+        destruct (Nat.lt_ge_cases v (length h)) as [Hlt|Hge].
+        -- rewrite Old in Hg by assumption. eapply (proj2 (Hv m v Hin)); eauto.
+        -- destruct (Nat.eq_dec v (length h2)) as [->|Hn2].
+           ++ rewrite Gv in Hg. injection Hg as <- <-. lia.
+           ++ destruct (Nat.eq_dec v (length h)) as [->|Hn0].
+              ** unfold h3 in Hg. rewrite c19_get_app_old in Hg by lia. unfold h2 in Hg.
+                 rewrite c19_get_app_old in Hg by lia. unfold h1 in Hg. rewrite c19_get_app_new in Hg. discriminate.
+              ** destruct (Nat.eq_dec v (length h1)) as [->|Hn1].
+                 --- unfold h3 in Hg. rewrite c19_get_app_old in Hg by lia. unfold h2 in Hg.
+                     rewrite c19_get_app_new in Hg. discriminate.
+                 --- rewrite c19_get_ge in Hg by lia. discriminate.
+Qed.
+
+Lemma c19_freshshell_delvar n0 h d vars a n :
+  c19_freshshell n0 h d vars a ->
+  let h' := c19_apply h d (C19DelVar n) in
+  c19_pres n0 h h' /\ exists vars', c19_freshshell n0 h' d vars' a.
+Proof.
+  intros (Hd & Hdd & Ha & Hv). pose proof (c19_get_lt _ _ _ Hd) as Hdl.
+  unfold c19_apply. rewrite Hd. split; [apply c19_pres_upd; auto|].
+  exists (c19_del n vars). split; [apply c19_get_upd_same; auto|]. split; auto. split; auto.
+  intros m v Hin. apply c19_del_In in Hin. split; [apply (Hv m v Hin)|]. intros b va Hg.
+  destruct (Nat.eq_dec v d) as [->|Hne].
+  - rewrite c19_get_upd_same in Hg by assumption. discriminate.
+  - rewrite c19_get_upd_other in Hg by assumption. eapply (proj2 (Hv m v Hin)); eauto.
+Qed.
+
+Definition c19_not_writebuf (o : c19_op) : bool :=
+  match o with C19WriteBuf _ _ => false | _ => true end.
+
+(* every mutator except an in-place buffer write stays inside the fresh shell *)
+Lemma c19_freshshell_apply n0 h d vars a o :
+  c19_freshshell n0 h d vars a -> n0 <= length h -> c19_not_writebuf o = true ->
+  c19_pres n0 h (c19_apply h d o) /\ exists vars', c19_freshshell n0 (c19_apply h d o) d vars' a.
+Proof.
+  intros FS Hn Ho. destruct o as [n data at'|n data|n data|n k x|n]; try discriminate.
+  - apply c19_freshshell_setvar; auto.
+  - destruct (c19_freshshell_setdata n0 h d vars a n data FS Hn). split; eauto.
+  - destruct (c19_freshshell_setattr n0 h d vars a n k x FS). split; eauto.
+  - apply c19_freshshell_delvar; auto.
+Qed.
+
+Lemma c19_freshshell_run n0 : forall ops h d vars a,
+  c19_freshshell n0 h d vars a -> n0 <= length h -> forallb c19_not_writebuf ops = true ->
+  c19_pres n0 h (c19_run h d ops).
+Proof.
+  induction ops as [|o ops IH]; intros h d vars a FS Hn Ho; simpl; [apply c19_pres_refl|].
+  simpl in Ho. apply andb_true_iff in Ho. destruct Ho as [Ho1 Ho2].
+  destruct (c19_freshshell_apply n0 h d vars a o FS Hn Ho1) as (P & vars' & FS').
+  eapply c19_pres_trans; [exact P|]. eapply IH; eauto. destruct P. lia.
 Qed.
 
 Lemma c19_shallow_vars_spec : forall vars h h' vars',
@@ -1171,7 +1151,7 @@ Proof.
   assert (X3 : c19_ext h2 (h2 ++ [C19Ds vars' (length h)])) by (apply (c19_ext_alloc h2)).
   destruct X2 as [l2 g2].
   split; [eapply c19_ext_trans; [exact X1|eapply c19_ext_trans; [split; eauto|exact X3]]|].
-  split; [lia|]. exists vars', (length h). split; [apply c19_get_app_new|]. split; [lia|].
+  split; [lia|]. exists vars', (length h). split; [apply c19_get_app_new|]. split; [lia|]. split; [lia|].
   intros m v Hin. destruct (R2 _ _ Hin) as [A B]. split; [lia|]. intros b va0 Hg.
   destruct (Nat.lt_ge_cases v (length h2)).
   - rewrite c19_get_app_old in Hg by assumption. apply B in Hg. lia.
@@ -1180,111 +1160,172 @@ Proof.
     + rewrite c19_get_ge in Hg by (rewrite app_length; simpl; lia). discriminate.
 Qed.
 
-Lemma c19_standardize_all_fixed_pres : forall names n0 h d vars a dtype_std,
+(* Grid.__init__ (own shallow copy, longitude pass): nothing that existed is written, the grid's
+   Dataset / Variable / attrs objects are its own *)
+Lemma c19_grid_init_spec h d h' g :
+  c19_grid_init h d = (h', g) ->
+  c19_ext h h' /\ length h <= g /\ exists vars a, c19_freshshell (length h) h' g vars a.
+Proof.
+  unfold c19_grid_init. destruct (c19_rename_ds h d) as [h1 d1] eqn:E1. intros [= <- <-].
+  destruct (c19_rename_ds_spec _ _ _ _ E1) as (X1 & Ld & vars & a & FS).
+  pose proof (proj1 X1) as L1.
+  assert (Step : forall hh name, c19_freshshell (length h) hh d1 vars a -> length h <= length hh ->
+            c19_pres (length h) hh (c19_fix_lon hh d1 name) /\
+            c19_freshshell (length h) (c19_fix_lon hh d1 name) d1 vars a /\ length h <= length (c19_fix_lon hh d1 name)).
+  { intros hh name FSh Lh. pose proof FSh as (Hd & _).
+    assert (T : c19_pres (length h) hh hh /\ c19_freshshell (length h) hh d1 vars a /\ length h <= length hh)
+      by (split; [apply c19_pres_refl|split; auto]).
+    unfold c19_fix_lon. rewrite Hd.
+    destruct (c19_find name vars) as [v|]; auto.
+    destruct (c19_get hh v) as [[| |b va|]|]; auto.
+    destruct (c19_lon_over (c19_buf_data hh b)); auto.
+    destruct (c19_freshshell_setdata (length h) hh d1 vars a name (c19_wrap_lon (c19_buf_data hh b)) FSh Lh) as [P F2].
+    split; auto. split; auto. destruct P. lia. }
+  destruct (Step h1 c19_NODE_LON FS L1) as (P1 & F1 & M1).
+  destruct (Step _ c19_EDGE_LON F1 M1) as (P2 & F2 & M2).
+  destruct (Step _ c19_FACE_LON F2 M2) as (P3 & F3 & M3).
+  split; [|split; [assumption|eauto]].
+  apply c19_pres_is_ext. eapply c19_pres_trans; [apply c19_pres_ext; [exact X1|lia]|].
+  eapply c19_pres_trans; [exact P1|]. eapply c19_pres_trans; [exact P2|exact P3].
+Qed.
+
+(* C19_inputs for Grid(ds) / from_dataset(ds, source_grid_spec=...): building writes nothing of the
+   caller's dataset, and no later public mutator of the grid (setters, lazy derivation, data
+   replacement, attrs edits - everything but an in-place numpy write) does either *)
+Lemma c19_grid_init_inputs h d h' g ops :
+  c19_grid_init h d = (h', g) -> forallb c19_not_writebuf ops = true ->
+  c19_ext h h' /\ length h <= g /\ c19_ext h (c19_run h' g ops).
+Proof.
+  intros E Ho. destruct (c19_grid_init_spec _ _ _ _ E) as (X & Lg & vars & a & FS).
+  split; auto. split; auto.
+  apply c19_pres_is_ext. eapply c19_pres_trans; [apply c19_pres_ext; [exact X|lia]|].
+  eapply c19_freshshell_run; eauto. apply X.
+Qed.
+
+Lemma c19_grid_init_flags_spec h d over h' g :
+  c19_grid_init_flags h d over = (h', g) -> c19_ext h h' /\ length h <= g.
+Proof.
+  unfold c19_grid_init_flags. destruct (c19_rename_ds h d) as [h1 d1] eqn:E1. intros [= <- <-].
+  destruct (c19_rename_ds_spec _ _ _ _ E1) as (X1 & Ld & vars & a & FS). split; auto.
+  apply c19_pres_is_ext. eapply c19_pres_trans; [apply c19_pres_ext; [exact X1|lia]|].
+  pose proof (proj1 X1) as L1. clear E1 X1.
+  revert h1 FS L1. induction over as [|n over IH]; intros h1 FS L1; cbn [fold_left]; [apply c19_pres_refl|].
+  destruct (c19_freshshell_setdata (length h) h1 d1 vars a n [n] FS L1) as [P F2].
+  eapply c19_pres_trans; [exact P|]. apply IH; auto. destruct P. lia.
+Qed.
+
+(* C19_inputs for the table-driven readers (MPAS, Exodus, SCRIP, ESMF, GEOS-CS, ICON): whatever
+   the table and the input dataset, no existing cell is written *)
+Lemma c19_read_table_inputs h d t cg over h' g :
+  c19_read_table h d t cg over = (h', g) -> c19_ext h h' /\ length h <= g.
+Proof.
+  unfold c19_read_table.
+  destruct (c19_new_ds h (c19_table_sources h d t) (if cg then c19_ds_gattrs h d else [])) as [h1 d1] eqn:E.
+  destruct (c19_new_ds_spec _ _ _ _ _ E) as (X & _).
+  intros Hr. destruct (c19_grid_init_flags_spec _ _ _ _ _ Hr) as [X2 L2].
+  split; [eapply c19_ext_trans; eauto|]. destruct X. lia.
+Qed.
+
+Lemma c19_process_all_ext : forall l h dtype_std fv si h' cv,
+  c19_process_all h l dtype_std fv si = (h', cv) -> c19_ext h h'.
+Proof.
+  induction l as [|[n b] l IH]; intros h dtype_std fv si h' cv; cbn [c19_process_all].
+  - intros [= <- <-]. apply c19_ext_refl.
+  - destruct (c19_process_connectivity h b dtype_std fv si) as [h1 r] eqn:E1.
+    destruct (c19_process_all h1 l dtype_std fv si) as [h2 t'] eqn:E2. intros [= <- <-].
+    eapply c19_ext_trans; [|eapply IH; eauto].
+    pose proof (c19_pc_ext h b dtype_std fv si) as X. rewrite E1 in X. exact X.
+Qed.
+
+(* C19_inputs for from_topology / open_grid(dict): no argument cell is written, whatever the arguments *)
+Lemma c19_from_topology_inputs h coords conns dtype_std fv si h' g :
+  c19_from_topology h coords conns dtype_std fv si = (h', g) ->
+  c19_ext h h' /\ length h <= g.
+Proof.
+  unfold c19_from_topology.
+  destruct (c19_process_all h conns dtype_std fv si) as [h1 cv] eqn:E1.
+  match goal with |- context [c19_new_ds h1 ?l ?g0] => destruct (c19_new_ds h1 l g0) as [h2 d] eqn:E2 end.
+  intros Hr.
+  pose proof (c19_process_all_ext _ _ _ _ _ _ _ E1) as X1.
+  destruct (c19_new_ds_spec _ _ _ _ _ E2) as (X2 & _).
+  destruct (c19_grid_init_spec _ _ _ _ Hr) as (X3 & L3 & _).
+  split; [eapply c19_ext_trans; [exact X1|eapply c19_ext_trans; eauto]|].
+  destruct X1, X2. lia.
+Qed.
+
+Lemma c19_standardize_pres n0 h d vars a name dtype_std :
   c19_freshshell n0 h d vars a -> n0 <= length h ->
-  let h' := fold_left (fun hh n => c19_standardize true hh d n dtype_std) names h in
+  let h' := c19_standardize h d name dtype_std in
+  c19_pres n0 h h' /\ c19_freshshell n0 h' d vars a /\ n0 <= length h'.
+Proof.
+  intros FS Hn. pose proof FS as (Hd & _).
+  assert (Triv : c19_pres n0 h h /\ c19_freshshell n0 h d vars a /\ n0 <= length h)
+    by (split; [apply c19_pres_refl|split; auto]).
+  unfold c19_standardize. rewrite Hd.
+  destruct (c19_find name vars) as [v|]; auto.
+  destruct (c19_get h v) as [[| |b va|]|]; auto.
+  match goal with |- context [c19_apply h d (C19SetData name ?x2)] =>
+    destruct (c19_freshshell_setdata n0 h d vars a name x2 FS Hn) as [P1 FS1];
+    set (h1 := c19_apply h d (C19SetData name x2)) in * end.
+  destruct (c19_freshshell_setattr n0 h1 d vars a name c19_K_FILLVALUE FILL FS1) as [P2 FS2].
+  set (h2 := c19_apply h1 d (C19SetAttr name c19_K_FILLVALUE FILL)) in *.
+  destruct (c19_freshshell_setattr n0 h2 d vars a name c19_K_START 0%Z FS2) as [P3 FS3].
+  split; [eapply c19_pres_trans; [exact P1|eapply c19_pres_trans; eauto]|]. split; auto.
+  destruct P1, P2, P3. lia.
+Qed.
+
+Lemma c19_standardize_all_pres : forall names n0 h d vars a dtype_std,
+  c19_freshshell n0 h d vars a -> n0 <= length h ->
+  let h' := fold_left (fun hh n => c19_standardize hh d n dtype_std) names h in
   c19_pres n0 h h' /\ c19_freshshell n0 h' d vars a.
 Proof.
   induction names as [|n names IH]; intros n0 h d vars a dtype_std FS Hn; cbn [fold_left].
   - split; [apply c19_pres_refl|assumption].
-  - destruct (c19_standardize_fixed_pres n0 h d vars a n dtype_std FS Hn) as (P1 & FS1 & L1).
+  - destruct (c19_standardize_pres n0 h d vars a n dtype_std FS Hn) as (P1 & FS1 & L1).
     destruct (IH n0 _ d vars a dtype_std FS1 L1) as (P2 & FS2).
     split; [eapply c19_pres_trans; eauto|assumption].
 Qed.
 
-(* C19_inputs for the repaired UGRID reader: no cell of the input dataset is written *)
-Lemma c19_read_ugrid_fixed_inputs h d names dtype_std h' g :
-  c19_read_ugrid_fixed h d names dtype_std = (h', g) -> c19_ext h h' /\ length h <= g.
+(* C19_inputs for the UGRID reader: no cell of the input dataset is written *)
+Lemma c19_read_ugrid_inputs h d names dtype_std h' g :
+  c19_read_ugrid h d names dtype_std = (h', g) -> c19_ext h h' /\ length h <= g.
 Proof.
-  unfold c19_read_ugrid_fixed, c19_read_ugrid_gen.
+  unfold c19_read_ugrid.
   destruct (c19_rename_ds h d) as [h1 d1] eqn:E1.
   destruct (c19_rename_ds_spec _ _ _ _ E1) as (X1 & Ld & vars & a & FS).
-  destruct (c19_standardize_all_fixed_pres names (length h) h1 d1 vars a dtype_std FS (proj1 X1)) as (P2 & FS2).
-  unfold c19_grid_init. intros [= <- <-]. split; auto.
-  destruct FS2 as (Gd & _ & Hv).
-  apply c19_pres_is_ext. eapply c19_pres_trans; [apply c19_pres_ext; [exact X1|lia]|].
-  eapply c19_pres_trans; [exact P2|].
-  apply (c19_grid_init_pres (length h) _ d1 vars a Gd). intros m v Hin. apply (Hv m v Hin).
+  destruct (c19_standardize_all_pres names (length h) h1 d1 vars a dtype_std FS (proj1 X1)) as (P2 & FS2).
+  intros Hr. destruct (c19_grid_init_spec _ _ _ _ Hr) as (X3 & L3 & _).
+  split.
+  - apply c19_pres_is_ext. eapply c19_pres_trans; [apply c19_pres_ext; [exact X1|lia]|].
+    eapply c19_pres_trans; [exact P2|]. apply c19_pres_ext; [exact X3|]. destruct X1, P2. lia.
+  - destruct X1, P2. lia.
 Qed.
 
 (* ------------------------------------------------------------------------- *)
-(* Grid(ds) adoption, exports                                                  *)
-
-(* repaired Grid.__init__ (deep copy of the given dataset): nothing of the input is written, and
-   the grid is separated from the input dataset for every later history *)
-Lemma c19_grid_init_fixed_inputs h d h' g :
-  c19_wt h d = true -> c19_grid_init_fixed h d = (h', g) ->
-  c19_ext h h' /\ length h <= g.
-Proof.
-  intros Hwt. unfold c19_grid_init_fixed.
-  destruct (c19_deepcopy h d) as [h1 d1] eqn:E1.
-  destruct (c19_deepcopy_spec h d h1 d1 Hwt E1) as (X & O & W & F).
-  unfold c19_grid_init. intros [= <- <-].
-  destruct (c19_wt_inv _ _ W) as (vars & a & Gd & Ha & Hv).
-  assert (Ld : length h <= d1) by (apply F; unfold c19_reach; simpl; auto).
-  split; auto.
-  apply c19_pres_is_ext. eapply c19_pres_trans; [apply c19_pres_ext; [exact X|lia]|].
-  apply (c19_grid_init_pres (length h) h1 d1 vars a Gd).
-  intros m v Hin. apply F. eapply c19_in_reach_var; eauto. unfold c19_reach_var. simpl. auto.
-Qed.
+(* exports                                                                     *)
 
 Local Open Scope Z_scope.
 
-(* the constructor that exists adopts the caller's dataset: with a longitude above 180 the
-   caller's dataset reports other values after the call *)
-Definition c19_ex_lon_heap : c19_heap :=
-  [C19Buf [10000000; 200000000]; C19Dict [(0, 0)]; C19Var 0 1; C19Dict []; C19Ds [(c19_NODE_LON, 2%nat)] 3].
-
-Lemma c19_grid_init_adopt_refuted : exists h d,
-  c19_wt h d = true /\
-  let '(h', g) := c19_grid_init h d in g = d /\ c19_obs h' d <> c19_obs h d.
-Proof.
-  exists c19_ex_lon_heap, 4%nat. split; [reflexivity|]. vm_compute. split; [reflexivity|discriminate].
-Qed.
-
-(* repaired to_xarray("ugrid"): the returned dataset and the grid are separated *)
-Lemma c19_export_fixed_independent h d h' e ops :
-  c19_wt h d = true -> c19_to_xarray_ugrid_fixed h d = (h', e) ->
+(* to_xarray("ugrid"): the returned dataset and the grid are separated *)
+Lemma c19_export_independent h d h' e ops :
+  c19_wt h d = true -> c19_to_xarray_ugrid h d = (h', e) ->
   c19_obs h' d = c19_obs h d /\
   c19_obs (c19_run h' e ops) d = c19_obs h d /\
   c19_obs (c19_run h' d ops) e = c19_obs h' e.
 Proof.
-  intros Hwt. unfold c19_to_xarray_ugrid_fixed.
+  intros Hwt. unfold c19_to_xarray_ugrid.
   destruct (c19_deepcopy h d) as [h1 d1] eqn:E1. intros [= <- <-].
   destruct (c19_deepcopy_sep h d h1 d1 Hwt E1) as (S & O1 & O2).
-  destruct (c19_sep_step h1 d1 d (C19SetVar c19_GRID_TOPOLOGY [-1] [(0, 0)]) (c19_sep_sym _ _ _ S)) as [S' O'].
-  set (h2 := c19_apply h1 d1 (C19SetVar c19_GRID_TOPOLOGY [-1] [(0, 0)])) in *.
-  destruct S' as (W1 & W2 & Dj).
+  destruct (c19_sep_step h1 d1 d (C19DelVar c19_GRID_TOPOLOGY) (c19_sep_sym _ _ _ S)) as [S1 Q1].
+  set (h2 := c19_apply h1 d1 (C19DelVar c19_GRID_TOPOLOGY)) in *.
+  destruct (c19_sep_step h2 d1 d (C19SetVar c19_GRID_TOPOLOGY [-1] [(0, 0)]) S1) as [S2 Q2].
+  set (h3 := c19_apply h2 d1 (C19SetVar c19_GRID_TOPOLOGY [-1] [(0, 0)])) in *.
+  destruct S2 as (W1 & W2 & Dj).
   repeat split.
-  - rewrite O'. exact O2.
-  - rewrite c19_frame_thm; auto. rewrite O'. exact O2.
+  - rewrite Q2, Q1. exact O2.
+  - rewrite c19_frame_thm; auto. rewrite Q2, Q1. exact O2.
   - rewrite c19_frame_thm; auto. apply c19_disjoint_sym; auto.
 Qed.
-
-(* the export that exists returns the grid's own dataset on the first call *)
-Lemma c19_export_ugrid_refuted : exists h d ops,
-  c19_wt h d = true /\
-  let '(h', e) := c19_to_xarray_ugrid h d in
-  c19_obs (c19_run h' e ops) d <> c19_obs h' d.
-Proof.
-  exists c19_ex_heap, 4%nat, [C19SetAttr (-1) 7 7]. split; [reflexivity|]. vm_compute. discriminate.
-Qed.
-
-(* ... and on later calls a new Dataset that shares the Variable objects *)
-Lemma c19_export_ugrid_second_refuted : exists h d ops,
-  c19_wt h d = true /\
-  let '(h1, e1) := c19_to_xarray_ugrid h d in
-  let '(h2, e2) := c19_to_xarray_ugrid h1 d in
-  e2 <> d /\ c19_obs (c19_run h2 e2 ops) d <> c19_obs h2 d.
-Proof.
-  exists c19_ex_heap, 4%nat, [C19WriteBuf c19_NODE_LON [0; 0]]. split; [reflexivity|].
-  vm_compute. split; [lia|discriminate].
-Qed.
-
-(* an export built from a table shares at most buffers: every caller edit except an in-place
-   write into a shared buffer leaves the grid's report unchanged *)
-Definition c19_not_writebuf (o : c19_op) : bool :=
-  match o with C19WriteBuf _ _ => false | _ => true end.
 
 (* geometry exports: a deep copy is a new object, edits of it never reach the cached one *)
 Lemma c19_export_geo_deep h cached c h' e c' :
@@ -1306,34 +1347,16 @@ Proof.
   intros Hg. simpl. split; auto. apply c19_get_upd_same. eapply c19_get_lt; eauto.
 Qed.
 
-(* from_topology / UGRID reader as written: witnesses of a modified input *)
+(* ------------------------------------------------------------------------- *)
+(* non-vacuity: the hypotheses of the theorems above are met by concrete, non-trivial inputs  *)
+
+Definition c19_ex_lon_heap : c19_heap :=
+  [C19Buf [10000000; 200000000]; C19Dict [(0, 0)]; C19Var 0 1; C19Dict []; C19Ds [(c19_NODE_LON, 2%nat)] 3].
 Definition c19_ex_topo_heap : c19_heap :=
   [C19Buf [10000000; 20000000; 30000000]; C19Buf [0; 10000000; 0]; C19Buf [1; 2; 3; -1]].
-
-Lemma c19_from_topology_refuted : exists h coords conns dtype_std fv si,
-  match c19_from_topology h coords true conns dtype_std fv si with
-  | Some (h', g) => c19_get h' 2%nat <> c19_get h 2%nat
-  | None => False
-  end.
-Proof.
-  exists c19_ex_topo_heap, [(c19_NODE_LON, (true, 0%nat)); (c19_NODE_LAT, (true, 1%nat))],
-         [(c19_FNC, 2%nat)], true, (Some (-1)), 1.
-  vm_compute. discriminate.
-Qed.
-
 Definition c19_ex_ugrid_heap : c19_heap :=
   [C19Buf [1; 2; 3; -1]; C19Dict [(c19_K_FILLVALUE, -1); (c19_K_START, 1)]; C19Var 0 1;
    C19Dict []; C19Ds [(c19_FNC, 2%nat)] 3].
-
-Lemma c19_read_ugrid_refuted : exists h d names dtype_std,
-  c19_wt h d = true /\
-  let '(h', g) := c19_read_ugrid h d names dtype_std in c19_obs h' d <> c19_obs h d.
-Proof.
-  exists c19_ex_ugrid_heap, 4%nat, [c19_FNC], true. split; [reflexivity|]. vm_compute. discriminate.
-Qed.
-
-(* ------------------------------------------------------------------------- *)
-(* non-vacuity: the hypotheses of the theorems above are met by concrete, non-trivial inputs  *)
 
 Example c19_frame_nonvacuous :
   let '(h', d') := c19_deepcopy c19_ex_heap 4%nat in
@@ -1345,6 +1368,22 @@ Proof.
   destruct (c19_deepcopy_sep c19_ex_heap 4%nat h' d' eq_refl E) as (S & O1 & O2).
   split; auto. revert E. vm_compute. intros [= <- <-]. split; discriminate.
 Qed.
+
+(* the constructors do something on concrete inputs: the grid wraps the longitude / latitude arrays,
+   holds the standardised connectivity in a new array, and the caller's cells are as before *)
+Example c19_constructors_nonvacuous :
+  (let '(h', g) := c19_from_topology c19_ex_topo_heap [(c19_NODE_LON, (true, 0%nat)); (c19_NODE_LAT, (true, 1%nat))]
+                                     [(c19_FNC, 2%nat)] true (Some (-1)) 1 in
+   c19_wt h' g = true /\ c19_get h' 2%nat = Some (C19Buf [1; 2; 3; -1]) /\
+   c19_alias_table h' g [(1000, 2%nat); (1010, 0%nat); (1011, 1%nat)] = [(c19_NODE_LON, 1010); (c19_NODE_LAT, 1011)] /\
+   option_map (c19_buf_data h') (c19_var_buf h' g c19_FNC) = Some [0; 1; 2; FILL]) /\
+  (let '(h', g) := c19_read_ugrid c19_ex_ugrid_heap 4%nat [c19_FNC] true in
+   c19_wt h' g = true /\ c19_obs h' 4%nat = c19_obs c19_ex_ugrid_heap 4%nat /\
+   option_map (c19_buf_data h') (c19_var_buf h' g c19_FNC) = Some [0; 1; 2; FILL]) /\
+  (let '(h', g) := c19_grid_init c19_ex_lon_heap 4%nat in
+   g <> 4%nat /\ c19_obs h' 4%nat = c19_obs c19_ex_lon_heap 4%nat /\
+   option_map (c19_buf_data h') (c19_var_buf h' g c19_NODE_LON) = Some [10000000; -160000000]).
+Proof. vm_compute. repeat split; try reflexivity; lia. Qed.
 
 Example c19_pc_nonvacuous :
   c19_get c19_ex_topo_heap 2%nat = Some (C19Buf [1; 2; 3; -1]) /\
